@@ -62,6 +62,8 @@ type Config struct {
 	PM         bool     `json:"pm,omitempty"`
 	Out        []OutMsg `json:"out,omitempty"`
 	DupFirst   bool     `json:"dup_first,omitempty"`   // propose the first MID twice in one block
+	DupSrc     int      `json:"dup_src,omitempty"`     // which proposal of the block is duplicated
+	DupPos     int      `json:"dup_pos,omitempty"`     // how far behind the original the copy is placed
 	BlockSize  int      `json:"block_size,omitempty"`  // proposals per block (1..5, default 5)
 	DataBlocks []int    `json:"data_blocks,omitempty"` // STX block-size tape (1..256)
 	// Answers: per MID the answer token the peer gives: + - = Y N L H R !0 A0 (either case).
@@ -540,7 +542,18 @@ func (p *peer) myTurn(remoteNoMsgs bool) (quit, sentBlock bool, err error) {
 		block = block[:bs]
 	}
 	if p.cfg.DupFirst && len(block) < 5 && len(p.res.Sent) == 0 && p.emits["proposal"] == 0 {
-		block = append(block, block[0])
+		// propose one MID twice in the block; the copy goes to a plan-chosen place after the original
+		src := 0
+		if p.cfg.DupSrc > 0 {
+			src = p.cfg.DupSrc % len(block)
+		}
+		pos := src + 1
+		if p.cfg.DupPos > 0 {
+			pos = src + 1 + p.cfg.DupPos%(len(block)-src)
+		}
+		nb := append([]OutMsg{}, block[:pos]...)
+		nb = append(nb, block[src])
+		block = append(nb, block[pos:]...)
 	}
 	if err = p.comment("before-proposal"); err != nil {
 		return
